@@ -41,7 +41,11 @@ def arg_descs(contract, fork_tag, model):
     for name in contract["params"]:
         tag = fork.get(name)
         mv = model.get(name)
-        if tag in TYPE_NAMES:
+        if contract["params"][name] == "selfc":
+            out[name] = {"kind": "selfc", "compiled": "+compiled" in (tag or "")}
+        elif contract["params"][name] == "text":
+            out[name] = {"kind": "text"}
+        elif tag in TYPE_NAMES:
             d = {"kind": "pregex", "type": tag}
             for k, v in model.items():
                 if k.startswith(f"rep_{name}_"):
@@ -94,10 +98,34 @@ def _smt_str(mv, default):
     return s.replace('""', '"')
 
 
-def run_functions(report, qualnames, tier="quick", bounded_limit=None):
+def run_bounded(report, q, tier, reason, limit=None):
+    """bounded stand-in: the same contract evaluated at run time on the real function over a stated finite pool"""
+    lim = limit or (3000 if tier == "quick" else 40000)
+    b = native("run_module", {"module": "pvc.bex_contract", "func": "bounded",
+                              "args": {"qualname": q, "limit": lim, "seed": SEED}}, timeout=3600)
+    report.bounded.append({"function": q, "reason": reason,
+                           "contract": "same contract, evaluated at run time on the real function",
+                           "bound": f"product of the argument pools of pvc/bex_contract.py ({b['space']} combinations"
+                                    + ("" if b["exhaustive"] else f", {b['evaluations']} sampled") + ")",
+                           "evaluations": b["evaluations"], "distinct_nontrivial": b["evaluations"],
+                           "rule": "distinct argument combinations", "outcomes": b["outcomes"]})
+    for f in b["failures"][:3]:
+        call = ", ".join(f"{k}={v}" for k, v in f["args"].items())
+        report.violation(f"{q}: contract (bounded stand-in)", {"function": q, "failing_call": call, "why": f.get("why"),
+                         "observed": f.get("observed"), "reason_for_bounded": reason},
+                         {"kind": "contract_call", "qualname": q, "args": f["args"]}, witness=call)
+    return b
+
+
+def run_functions(report, qualnames, tier="quick", bounded_limit=None, monitor=True):
     import contracts
     t0 = time.time()
     qualnames = list(dict.fromkeys(qualnames))
+    bounded_only = [q for q in qualnames if contracts.ALL[q].get("bounded_only")]
+    qualnames = [q for q in qualnames if q not in bounded_only]
+    for q in bounded_only:
+        run_bounded(report, q, tier, "the function is outside the verifier's loop forms (contract stated, bounded-checked only)")
+        report.functions[q] = {"regime": "bounded stand-in only"}
     results = []
     if len(qualnames) > 2:
         with cf.ProcessPoolExecutor(max_workers=min(NCPU, len(qualnames))) as ex:
@@ -141,30 +169,33 @@ def run_functions(report, qualnames, tier="quick", bounded_limit=None):
                                        "observed": rr.get("observed"), "model": o.get("model")},
                                  {"kind": "contract", "qualname": q, "arg_descs": descs}, witness=call)
             else:
+                # targeted bounded search on the same contract for a concrete failing input (DESIGN 9, step 2)
+                found = None
+                try:
+                    b = native("run_module", {"module": "pvc.bex_contract", "func": "bounded",
+                                              "args": {"qualname": q, "limit": 6000, "seed": SEED}}, timeout=1800)
+                    if b["failures"]:
+                        found = b["failures"][0]
+                except CheckerError:
+                    pass
                 o = obs[0]
+                if found is not None:
+                    call = ", ".join(f"{k}={v}" for k, v in found["args"].items())
+                    report.violation(key, {"function": q, "obligation": o["name"], "failing_call": call, "why": found.get("why"),
+                                           "observed": found.get("observed"), "model": o.get("model"),
+                                           "note": "input found by the targeted bounded search on the failed contract"},
+                                     {"kind": "contract_call", "qualname": q, "args": found["args"]}, witness=call)
+                    continue
                 report.violation(key, {"function": q, "obligation": o["name"], "model": o.get("model"),
                                        "detail": o.get("detail"), "note": "the counter-model did not replay on the witness "
                                        "library; the obligation is reported as failed"},
                                  None, no_input=True)
         if r["limitation"]:
             # the verifier cannot process the current source of this function: bounded stand-in of the same contract
-            lim = bounded_limit or (3000 if tier == "quick" else 40000)
             try:
-                b = native("run_module", {"module": "pvc.bex_contract", "func": "bounded",
-                                          "args": {"qualname": q, "limit": lim, "seed": SEED}}, timeout=1800)
+                run_bounded(report, q, tier, "checker limitation: " + r["limitation"], bounded_limit)
             except CheckerError as e:
                 raise CheckerError(f"{q}: verifier limitation ({r['limitation']}) and the bounded stand-in failed: {e}")
-            report.bounded.append({"function": q, "reason": "checker limitation: " + r["limitation"],
-                                   "contract": "same contract, evaluated at run time on the real function",
-                                   "bound": f"product of the argument pools of pvc/bex_contract.py ({b['space']} combinations"
-                                            + ("" if b["exhaustive"] else f", {b['evaluations']} sampled") + ")",
-                                   "evaluations": b["evaluations"], "distinct_nontrivial": b["evaluations"],
-                                   "rule": "distinct argument combinations", "outcomes": b["outcomes"]})
-            for f in b["failures"][:3]:
-                call = ", ".join(f"{k}={v}" for k, v in f["args"].items())
-                report.violation(f"{q}: contract (bounded stand-in)", {"function": q, "failing_call": call, "why": f.get("why"),
-                                 "observed": f.get("observed"), "verifier_limitation": r["limitation"]},
-                                 {"kind": "contract_call", "qualname": q, "args": f["args"]}, witness=call)
     report.extra.setdefault("vc_wall_s", 0)
     report.extra["vc_wall_s"] += round(time.time() - t0, 2)
     return results
